@@ -122,6 +122,11 @@ def scenario(run, binp, k, mode, flags, faults, ending="eof", ntraffic=0):
     cache = os.path.join(d, "cache", "deep", "cert.txtar")
     if "cache_damaged" in faults:
         os.makedirs(os.path.dirname(cache), exist_ok=True); open(cache, "w").write("this is not a certificate cache\n-- cert --\nzzz\n")
+    if "cache_dangling" in faults:        # the cache path is a symbolic link into a directory that does not exist
+        os.makedirs(os.path.join(d, "cachelink"), exist_ok=True)
+        cache = os.path.join(d, "cachelink", "cert.txtar")
+        if not os.path.lexists(cache):
+            os.symlink(os.path.join(d, "no-such-dir", "cert.txtar"), cache)
     if "cache_unwritable" in faults:
         cache = os.path.join(d, "afile", "sub", "cert.txtar")
     argv += ["-tls-certificate-cache", cache]
@@ -178,7 +183,7 @@ def check(run):
     if rc:
         run.oblige("the program builds", False, (o + e).decode()[-2000:])
         return
-    singles = ["listen_nonlocal", "listen_inuse", "listen_noport", "cache_damaged", "cache_unwritable", "log_bad"]
+    singles = ["listen_nonlocal", "listen_inuse", "listen_noport", "cache_damaged", "cache_unwritable", "cache_dangling", "log_bad"]
     plan = []
     for mode in ("pty", "pty-stdin-null", "notty"):
         plan.append((mode, set(), set()))
@@ -191,6 +196,9 @@ def check(run):
             plan.append((mode, {info}, {"listen_nonlocal", "cache_damaged", "log_bad"}))
         plan.append((mode, {"print-ctrl-i"}, {"ctrl_i_missing"}))
         plan.append((mode, {"print-ctrl-i"}, {"ctrl_i_dangling"}))
+        plan.append((mode, {"print-ctrl-i", "log"}, {"ctrl_i_missing"}))      # a working log file must not swallow the message
+        plan.append((mode, {"log"}, {"listen_nonlocal"}))
+        plan.append((mode, {"log"}, set()))
         plan.append((mode, {"print-ctrl-i"}, set()))                         # no source configured
         plan.append((mode, {"print-ctrl-i", "ctrl_i"}, {"listen_nonlocal"}))    # source present: succeeds whatever the listener
         plan.append((mode, {"print-ctrl-i", "ctrl_i"}, {"log_bad"}))
@@ -208,7 +216,7 @@ def check(run):
     vlib.judge_stream(run, "scenarios", IMPORTS, "case", [{k: v for k, v in s.items() if k != "output"} for s in results], results,
                       lambda i, r: term(r), CLAUSES, (10,),
                       "the real binary, for every single start-up fault (non-local / in-use / port-less unusable listen address, damaged / unwritable "
-                      "certificate cache, unopenable log file, missing Ctrl+I source, Ctrl+I source directory with a dangling link), pairs of them, each informational flag (-print-default-template, "
+                      "certificate cache, cache path that is a dangling symbolic link, unopenable log file, missing Ctrl+I source, Ctrl+I source directory with a dangling link), pairs of them, each informational flag (-print-default-template, "
                       "-print-ctrl-i with and without source, -h) with and without faults, x three terminal situations: a controlling pty on stdin/stdout, a "
                       "controlling pty with stdin from /dev/null, no controlling terminal (setsid, /dev/null); normal exits by Ctrl+D and Ctrl+C typed into "
                       "the pty and by EOF on stdin, also after a session in which 80 scripts were served with eager garbage collection (GOGC=1); exit status, panic text, cause named in the message and termios before/after are observed",
